@@ -67,7 +67,9 @@ func runC01(c *ctx, r *Report) error {
 	os.MkdirAll(filepath.Join(root, "act"), 0o755)
 	actionYml := "name: act\nauthor: me\ndescription: d\ninputs:\n  x:\n    description: d\n    required: true\n    default: v\noutputs:\n  o:\n    description: d\n    value: v\nbranding:\n  icon: activity\n  color: blue\nruns:\n  using: composite\n  steps:\n    - run: echo\n      shell: bash\n"
 	configYml := "self-hosted-runner:\n  labels: [gpu]\nconfig-variables: [A, B]\npaths:\n  .github/workflows/**/*.yml:\n    ignore: [abc]\n"
-	callerYml := "on: push\njobs:\n  c:\n    uses: ./.github/workflows/reusable.yml\n    with:\n      name: x\n    secrets: inherit\n  d:\n    runs-on: ubuntu-latest\n    steps:\n      - uses: ./act\n        with:\n          x: 1\n"
+	// (the caller has diagnostics of its own — an unknown label and an undefined input — so that everything that
+	// post-processes diagnostics, e.g. the ignore patterns of the configuration, has something to work on)
+	callerYml := "on: push\njobs:\n  c:\n    uses: ./.github/workflows/reusable.yml\n    with:\n      name: x\n    secrets: inherit\n  d:\n    runs-on: no-such-runner-label\n    steps:\n      - uses: ./act\n        with:\n          x: 1\n          nosuchinput: 2\n      - run: echo ${{ nosuchcontext.x }}\n"
 	write := func(rel, src string) { os.WriteFile(filepath.Join(root, rel), []byte(src), 0o644) }
 	restore := func() {
 		write("act/action.yml", actionYml)
@@ -127,7 +129,7 @@ func runC01(c *ctx, r *Report) error {
 			}
 			for ri, rp := range repl {
 				// quick tier: all replacements at workflow positions, every 3rd at the others
-				if c.quick && tg.channel != "workflow" && (vi+ri)%3 != 0 {
+				if c.quick && tg.channel != "workflow" && tg.channel != "config" && (vi+ri)%3 != 0 {
 					continue
 				}
 				if c.quick && tg.src == wfBaseA && (vi+ri)%2 != 0 {
